@@ -66,9 +66,13 @@ func init() {
 			for _, t := range importTemplates() {
 				u = append(u, "shared-resolver/"+t.Name)
 			}
-			return u
+			return append(u, siteUnits("C08")...)
 		},
 		Run: func(ctx *core.Ctx, unit int) {
+			if n := len(importTemplates()) * (c08Shards + 1); unit >= n {
+				siteRun(ctx, "C08", unit-n)
+				return
+			}
 			if n := len(importTemplates()) * c08Shards; unit >= n {
 				// one goast resolver instance decorating this file and then each other file, every file in
 				// its own FileSet; both must round-trip (a resolver may be shared between decorators)
@@ -121,6 +125,9 @@ func init() {
 			})
 		},
 		Check: func(c core.Case) core.Outcome {
+			if sc, ok := siteDecode(c); ok {
+				return siteCheck(sc, nil)
+			}
 			var cs c08Case
 			if err := json.Unmarshal(c, &cs); err != nil {
 				panic(err)
